@@ -198,6 +198,13 @@ Definition var_kind (name : list Z) : outcome varkind :=
   | _ => Err Mem.E_INVALID_NODE
   end.
 
+(* position of the first entry with the value (entries are searched in declaration order) *)
+Fixpoint find_val_from (k : nat) (l : list eentry) (v : Z) : option nat :=
+  match l with
+  | [] => None
+  | e :: r => if ee_val e =? v then Some k else find_val_from (S k) r v
+  end.
+
 Section Interp.
   Variable fops : float_ops.
   Variable nodes : list node.
@@ -474,11 +481,10 @@ Section Interp.
       let! buf := mlift (bytes_from_float x len endian) in
       reg_store r buf.
 
-    (* StringReg; a non-ASCII content is reported as the marker [-1] (from_utf8_lossy not modelled) *)
+    (* StringReg (from_utf8_lossy is not modelled: a non-ASCII string is printed as a marker,
+       see show_ans) *)
     Definition strreg_value (r : regb) : M (list Z) :=
-      let! data := reg_fetch r in
-      let s := until_nul data in
-      mret (if is_ascii s then s else [-1]).
+      let! data := reg_fetch r in mret (until_nul data).
     Definition strreg_set (r : regb) (s : list Z) : M unit :=
       let! maxlen := reg_length r in
       if negb (is_ascii s) || has_nul s then merr Mem.E_INVALID_DATA
@@ -488,12 +494,7 @@ Section Interp.
         reg_store r (s ++ repeat 0 (Z.to_nat (maxlen - zlen s))).
 
     (* ---- formulas (utils.rs) ---------------------------------------------------------------- *)
-    Definition find_entry_by_val (ents : list eentry) (v : Z) : option nat :=
-      (fix go (k : nat) (l : list eentry) : option nat :=
-         match l with
-         | [] => None
-         | e :: r => if ee_val e =? v then Some k else go (S k) r
-         end) O ents.
+    Definition find_entry_by_val (ents : list eentry) (v : Z) : option nat := find_val_from O ents v.
     Definition find_entry_by_sym (ents : list eentry) (s : list Z) : option eentry :=
       find (fun e => ident_eq (ee_sym e) s) ents.
     Definition entry_numeric (e : eentry) : Z :=
@@ -830,7 +831,7 @@ Section Interp.
     | _, AOZ (Some z) => [0; 1; if is_flt_req q then canon_nan z else z]
     | _, AB b => [0; if b then 1 else 0]
     | QRegRead _ _, AL l => 0 :: l
-    | _, AL l => if match l with [x] => x =? -1 | _ => false end then [0; -1] else 0 :: zlen l :: l
+    | _, AL l => if is_ascii l then 0 :: zlen l :: l else [0; -1]
     | QEnumEntry n, AE k =>
       match body_of n with
       | NEnumeration ents _ =>
@@ -871,3 +872,39 @@ Section Interp.
     let '(o, s) := run_tops (S (S (length nodes))) ops {| s_vals := vals; s_dev := mk_dev base image |} in
     o ++ show_dev (s_dev s).
 End Interp.
+
+(* ---- the reference relation of a node store (used by the statements of C03) ---------------------- *)
+Definition refs_src (x : src) : list nat := match x with SNode n => [n] | SImm _ => [] end.
+Definition refs_isrc (x : isrc) : list nat := match x with INode n => [n] | IImm _ => [] end.
+Definition refs_vk (v : vkind) : list nat :=
+  match v with
+  | VValue _ => []
+  | VPValue p cs => p :: cs
+  | VPIndex i ents d => i :: flat_map (fun e => refs_src (snd e)) ents ++ refs_src d
+  end.
+Definition refs_addr (a : addr) : list nat :=
+  match a with
+  | AAddr x => refs_isrc x
+  | AKnife n => [n]
+  | AIndex off i => i :: match off with Some o => refs_isrc o | None => [] end
+  end.
+Definition refs_regb (r : regb) : list nat := flat_map refs_addr (rb_addrs r) ++ refs_isrc (rb_len r).
+Definition refs_knife (k : knife) : list nat := map snd (k_vars k).
+(* the nodes to which evaluating a node can send a request (the port is accessed directly) *)
+Definition refs_body (b : body) : list nat :=
+  match b with
+  | NInteger v mn mx inc => refs_vk v ++ refs_src mn ++ refs_src mx ++ refs_isrc inc
+  | NFloat v mn mx inc =>
+    refs_vk v ++ refs_src mn ++ refs_src mx ++ match inc with Some i => refs_isrc i | None => [] end
+  | NIntReg r _ _ | NMaskedIntReg r _ _ _ _ | NFloatReg r _ | NStringReg r | NRegister r => refs_regb r
+  | NBoolean v _ _ | NEnumeration _ v | NString v => refs_src v
+  | NCommand v cv => refs_src v ++ refs_src cv
+  | NIntSwissKnife k _ | NSwissKnife k _ => refs_knife k
+  | NIntConverter k _ _ p | NConverter k _ _ p => p :: refs_knife k
+  | NPort _ | NOther => []
+  end.
+
+(* acyclic: a rank function that decreases along every reference *)
+Definition ranked (nodes : list node) (rk : nat -> nat) : Prop :=
+  forall n nd, nth_error nodes n = Some nd ->
+               Forall (fun m => (rk m < rk n)%nat) (refs_body (nd_body nd)).
